@@ -1018,4 +1018,84 @@ def rule_operand_unpack(P):
     return R
 
 
-RULES = [rule_next_level, rule_terminal_type, rule_index_kind, rule_fold_zeros, rule_card_skipped, rule_mark_once, rule_array_extent, rule_position_kind, rule_operand_unpack]
+def rule_chain_args(P):
+    """a result computed at the level of its node is chained up to the level the caller asked for: makeRedundantsTo(p, K, L), makeIdentitiesTo(p, K, L, in),
+    chainToLevel(p, K, L, in) add the levels K+1..L.  All three level-typed arguments are plain ints: the requested level must be the function's own
+    level parameter (or a loop counter that walks levels), the start must not be that parameter, and `in` must be the incoming-index parameter"""
+    R = RuleResult("level.chain-args", "in every operation, makeRedundantsTo / makeIdentitiesTo / chainToLevel chain *to* the function's level parameter (or a level loop counter) *from* something else, and pass the function's incoming-index parameter as `in`")
+    n = 0
+    seen = set()
+    for f in sorted(P.fns.values(), key=lambda f: (f["file"], f["line"], f["inst"])):
+        if not f.get("cfg") or not f["file"].startswith("operations/") or (f["file"], f["line"]) in seen:
+            continue
+        ps = f.get("params", [])
+        sig = _split(f.get("sig", ""))
+        if not ps or not sig or len(sig) != len(ps):
+            continue
+        # the requested level is the int parameter right before the `unsigned in` parameter (…, int L, unsigned in, …), else a leading int parameter
+        li = next((i for i in range(1, len(sig)) if sig[i].startswith("unsigned") and sig[i - 1] == "int"), None)
+        if li is not None:
+            lvp, inp = ps[li - 1]["name"], ps[li]["name"]
+        elif sig[0] == "int":
+            lvp, inp = ps[0]["name"], None
+        else:
+            continue
+        seen.add((f["file"], f["line"]))
+        counters = set()
+        for b in f["cfg"]["blocks"]:
+            for e in b["ev"]:
+                if e["k"] == "ldef" and e.get("rhs") and re.search(r"(?<!\w)%s(?!\w)" % re.escape(e["var"]), e["rhs"]):
+                    counters.add(e["var"])
+                if e["k"] == "ldef" and e.get("op") in ("++", "--", "+=", "-="):
+                    counters.add(e["var"])
+        for b in f["cfg"]["blocks"]:
+            for e in b["ev"]:
+                if e["k"] != "call" or e["q"].split("::")[-1] not in ("makeRedundantsTo", "makeIdentitiesTo", "chainToLevel") or len(e.get("args") or []) < 3:
+                    continue
+                a = [_nz(x) for x in e["args"]]
+                n += 1
+                R.functions.add(f["inst"])
+                R.paths += 1
+                nm = e["q"].split("::")[-1]
+                iid = "%s: %s(%s)" % (base_name(f["q"]).replace(M, "")[:50], nm, ", ".join(a)[:60])
+                problems = []
+                if not (a[2] == lvp or any(re.search(r"(?<!\w)%s(?!\w)" % re.escape(c), a[2]) for c in counters)):
+                    problems.append("chains to `%s`, which is neither the level parameter `%s` nor a level loop counter" % (a[2], lvp))
+                if a[1] == lvp and a[2] == lvp:
+                    problems.append("chains from the requested level to itself")
+                elif a[1] == lvp and a[2] != lvp:
+                    problems.append("chains *from* the requested level `%s`" % lvp)
+                if nm in ("makeIdentitiesTo", "chainToLevel") and len(a) > 3 and inp and a[3] != inp:
+                    problems.append("passes `%s` as the incoming index, the parameter is `%s`" % (a[3], inp))
+                if not problems:
+                    R.ok(iid, where(f, e["line"]))
+                else:
+                    R.fail(iid, where(f, e["line"]), Finding(R.rule, f["file"], base_name(f["q"]), "%s(%s)" % (nm, ",".join(a[1:4])), "; ".join(problems) + ": the result is returned at the wrong level or with the wrong identity index", e["line"]))
+    if n < 60:
+        raise AnalysisBroken("level.chain-args: only %d chaining calls found, expected ≥60" % n)
+    R.require_floor(60, "chaining calls")
+    return R
+
+
+def _split(sig):
+    t = (sig or "").strip()
+    if not t.startswith("("):
+        return None
+    d, cur, out = 0, "", []
+    for ch in t[1:]:
+        if ch in "(<[":
+            d += 1
+        if ch in ")>]":
+            if d == 0:
+                break
+            d -= 1
+        if ch == "," and d == 0:
+            out.append(cur.strip())
+            cur = ""
+        else:
+            cur += ch
+    out.append(cur.strip())
+    return out
+
+
+RULES = [rule_next_level, rule_terminal_type, rule_index_kind, rule_fold_zeros, rule_card_skipped, rule_mark_once, rule_array_extent, rule_position_kind, rule_operand_unpack, rule_chain_args]
